@@ -14,7 +14,9 @@ from bt import bc
 
 ALIGNS = [1, 1, 1, 2, 4, 8, 8, 8, 16, 32, 64, 128]
 FOCUS_P = 0.25      # share of structures drawn from the focused layout generator
-NAMES = ['a', 'b', 'c', 'dd', 'e_1', 'Foo', 'bar', 'x', 'y', 'zz', 'len', 'id_', 'ts', 'size', 'v', 'w']
+NAMES = ['a', 'b', 'c', 'dd', 'e_1', 'Foo', 'bar', 'x', 'y', 'zz', 'len', 'id_', 'ts', 'size', 'v', 'w',
+         # names barectf itself uses for packet header / event header members: valid user member names
+         'magic', 'uuid', 'stream_id', 'id', 'timestamp']
 
 
 # ------------------------------------------------------------------ random generation
